@@ -121,6 +121,11 @@ Fixpoint eval_bu (ds : dataset) (g : graph) (p : alg) {struct p} : list sol :=
   | Graph (Vr v) q =>
       flat_map (fun ng => join_lists (eval_bu ds (snd ng) q) [[(v, fst ng)]]) (ds_named ds)
   | Distinct q => dedup (eval_bu ds g q)
+  | Slice n q =>
+      (* 18.5 Slice on a sequence whose order nothing fixes (no ORDER BY in this
+         algebra): the specification takes the list order of this evaluation; cases
+         are generated only where the observed answer does not depend on that choice *)
+      skipn (N.to_nat n) (eval_bu ds g q)
   end
 with expr_bu (ds : dataset) (g : graph) (m : sol) (e : expr) {struct e} : option term :=
   match e with
